@@ -62,9 +62,51 @@ fn run_any(out: &mut Out, ops: &[(String, Value)]) {
     }
 }
 
+/// lossless run-length encoding: maximal runs [length, first] of consecutive numbers
+fn rle(xs: impl Iterator<Item = u32>) -> Vec<[u64; 2]> {
+    let mut out: Vec<[u64; 2]> = vec![];
+    for x in xs {
+        match out.last_mut() { Some(r) if r[1] + r[0] == x as u64 => r[0] += 1, _ => out.push([1, x as u64]) }
+    }
+    out
+}
+/// C19 at scale (spec/StorageBulk.tla): one Storage<u32> receiving the numbers 0, 1, 2, ... in runs of append /
+/// fetch_or_append; after every run the indices of the returned tokens and lookups through ALL tokens handed out.
+fn bulk(out: &mut Out, total: u32) {
+    out.ev(json!({"ev": "bnew", "ty": "u32"}));
+    let mut s: Storage<u32> = Storage::new();
+    let mut toks: Vec<Token<u32>> = vec![];
+    let n = total;
+    let runs: Vec<(&str, u32, u32)> = vec![("append", 0, 1000.min(n)), ("fetch_or_append", 1000.min(n), 65530.min(n)), ("append", 65530.min(n), 65540.min(n)), ("append", 65540.min(n), n),
+        ("fetch_or_append", 0, 5.min(n)), ("fetch_or_append", 65530.min(n), 65545.min(n)), ("fetch_or_append", n.saturating_sub(3), n),
+        ("fetch_or_append", n, n + 3), ("append", n + 3, n + 5), ("fetch_or_append", 65535.min(n), 65538.min(n))];
+    for (op, from, to) in runs {
+        let r = catch(|| {
+            let mut got = vec![];
+            for v in from..to {
+                let t = if op == "append" { s.append(v) } else { s.fetch_or_append(v) };
+                #[allow(clippy::unnecessary_cast)]
+                got.push(t.index() as u32);
+                toks.push(t);
+            }
+            (rle(got.into_iter()), rle(toks.iter().map(|t| s[*t])))
+        });
+        match r {
+            Ok((t, l)) => out.ev(json!({"ev": "brun", "st": "ok", "op": op, "from": from, "to": to, "toks": t, "lookups": l})),
+            Err(p) => out.ev(json!({"ev": "brun", "st": "panic", "op": op, "from": from, "to": to, "toks": [], "lookups": [], "panic": jpanic(&p)})),
+        }
+    }
+}
+
 pub fn drive(args: &[String]) {
     let mut out = Out::create(arg(args, "--out").expect("--out"));
     let mut histories = 0;
+    if let Some(n) = arg(args, "--bulk") {
+        bulk(&mut out, n.parse().expect("--bulk N"));
+        let events = out.finish();
+        println!("{}", json!({"events": events, "histories": 1}));
+        return;
+    }
     for h in args.iter().enumerate().filter(|(_, a)| *a == "--histories").map(|(i, _)| args[i + 1].clone()) {
         let f = std::io::BufReader::new(std::fs::File::open(h).expect("histories"));
         for line in f.lines() {
